@@ -105,6 +105,9 @@ class SimCluster:
             return 0, "", f"{cmd}: error: Unable to contact slurm controller (connect failure)\n"
         if kind == "garbage":
             return 1, "@@@ \x00 not a job id\n", f"{cmd}: Communication failure\n"
+        if kind == "garbage0":
+            # the command "succeeds" but prints a notice instead of its usual output
+            return 0, "*** scheduler maintenance in progress, please try again later ***\n", ""
         if kind == "exit1-plain":
             # a failure whose message does not carry the word "error:" (sbatch: fatal: ..., "Unable to run job: ...")
             return 1, "", {"sbatch": "sbatch: fatal: Invalid account or account/partition combination specified\n",
